@@ -217,7 +217,7 @@ pub fn gen_c29(rng: &mut Rng, corpus: &Corpus, cfg: &C29Config) -> Value {
         // a quarter of the changes are small editor-like edits of the document's current text
         // (comment a line out, type a character, whitespace-only edits ...)
         if let Some(prev) = &cur_text[d] {
-            if cfg.derived && rng.chance(1, 4) {
+            if cfg.derived && rng.chance(1, 3) {
                 text = derive_edit(rng, prev);
             }
         }
@@ -580,12 +580,16 @@ pub fn derive_edit(rng: &mut Rng, prev: &str) -> String {
     if lines.is_empty() {
         return "// x\n".to_string();
     }
+    // a third of the derived edits are pure whitespace edits (format on save, trimming, blank
+    // lines added or removed): the text means the same, every position may move
+    let ws_only = rng.chance(1, 3);
     let n_edits = 1 + rng.below(2);
     for _ in 0..n_edits {
         // a third of the edits touch a declaration line (%start, %scanner, %skip, %on ...)
         let directive: Vec<usize> = (0..lines.len()).filter(|i| lines[*i].contains('%')).collect();
         let i = if !directive.is_empty() && rng.chance(1, 3) { *rng.pick(&directive) } else { rng.usize_below(lines.len()) };
-        match rng.below(12) {
+        let kind = if ws_only { 9 + rng.below(3) } else { rng.below(12) };
+        match kind {
             9 => {
                 // whitespace-only edit at the very beginning of the document
                 let ws = *rng.pick(&["", "", " ", "\t"]);
